@@ -400,8 +400,14 @@ impl<'t> DocGen<'t> {
             }
             4 => {
                 let a = self.t.draw(100_000);
-                let b = self.t.draw(1000);
-                format!("{}{a}.{b:03}", if self.t.chance(1, 3) { "-" } else { "" })
+                if self.t.chance(1, 2) {
+                    let b = self.t.draw(1000);
+                    format!("{}{a}.{b:03}", if self.t.chance(1, 3) { "-" } else { "" })
+                } else {
+                    // many significant digits: every digit the field type can hold must survive
+                    let b = self.t.draw(1_000_000_000_000);
+                    format!("{}{}.{b:012}", if self.t.chance(1, 3) { "-" } else { "" }, a % 1000)
+                }
             }
             _ => {
                 if double {
